@@ -24,11 +24,13 @@ LEVEL_NOTE = ("Trusted: the canonicalisation (DefId numbers, %tmp names, generat
               "numeric title suffixes renumbered by first appearance); a forked child right after module "
               "import is a session with empty history.")
 TECHNIQUE = "history checker with fault injection (sys.monitoring failpoints in the compiler) against fresh-process baselines"
-RULE = ("pool of 22 definitions; histories of 10-40 ops over {check, compile, emulate} x definition, 20% of "
+RULE = ("pool of 27 definitions (incl. three that are fine themselves but depend on failing ones); check "
+        "outcomes are compared with fresh-process baselines as well, half of the checks are repeated "
+        "immediately; histories of 10-40 ops over {check, compile, emulate} x definition, 20% of "
         "compile ops carry a failpoint at a random line event inside compiler/*; distinct = distinct "
         "(op, definition) sequences; non-trivial = history contains a repeated definition or an injected "
         "failure before a compared compile")
-FLOORS = {"compiles_compared": 150, "injections_fired": 10, "definitions_covered": 15}
+FLOORS = {"compiles_compared": 150, "checks_compared": 40, "injections_fired": 10, "definitions_covered": 15}
 
 POOL = '''from typing import Generic
 from collections.abc import Callable
@@ -103,6 +105,26 @@ def n_rec(k: int) -> int:
     return fact(k)
 
 @guppy
+def n_rec0(k: int) -> int:
+    def fib(m: int) -> int:
+        if m < 2:
+            return m
+        return fib(m - 1) + fib(m - 2)
+    return fib(k)
+
+@guppy
+def n_rec_twice(k: int) -> int:
+    def down(m: int) -> int:
+        if m <= 0:
+            return 0
+        return 1 + down(m - 1)
+    def up(m: int) -> int:
+        if m >= 5:
+            return down(m)
+        return up(m + 1)
+    return up(k) + n_rec0(3)
+
+@guppy
 def n_plain(k: int) -> int:
     def double(m: int) -> int:
         return m * 2
@@ -173,10 +195,23 @@ def bad_linear() -> None:
 @guppy
 def bad_generic_entry(x: int @comptime) -> int:
     return x
+
+@guppy
+def dep_bad(a: int) -> int:
+    return bad_check(a) + 1
+
+@guppy
+def dep_bad2(c: bool) -> int:
+    return f_add(1, 2) + dep_bad(3) + bad_undefined(c)
+
+@guppy
+def dep_bad_comptime(a: int) -> int:
+    return c_bad(a)
 '''
 DEFS = ["V", "f_add", "f_loop", "f_arr", "f_calls", "g_id", "g_len", "g_use", "n_rec", "n_plain", "c_sum",
         "c_bad", "uses_comptime", "uses_ov", "q_bell", "q_mod", "main_ok", "bad_check", "bad_undefined",
-        "bad_linear", "bad_generic_entry", "ov_a"]
+        "bad_linear", "bad_generic_entry", "ov_a", "dep_bad", "dep_bad2", "dep_bad_comptime",
+        "n_rec0", "n_rec_twice"]
 ENTRY_DEFS = {"main_ok"}
 COMPILER_SUFFIX = "guppylang_internals/compiler/"
 
@@ -248,26 +283,27 @@ def baselines(ctx, ld):
     if _BASE:
         return _BASE
     for name in DEFS:
-        r, w = os.pipe()
-        pid = os.fork()
-        if pid == 0:
-            try:
-                os.close(r)
-                d = getattr(ld.module, name)
-                out = {"compile": outcome_of(ctx, d, "compile")}
-                os.write(w, json.dumps(out).encode())
-            finally:
-                os._exit(0)
-        os.close(w)
-        data = b""
-        while True:
-            chunk = os.read(r, 65536)
-            if not chunk:
-                break
-            data += chunk
-        os.close(r)
-        os.waitpid(pid, 0)
-        _BASE[name] = json.loads(data.decode()) if data else {"compile": ["child-died", ""]}
+        _BASE[name] = {}
+        for op in ("check", "compile"):  # one fresh fork per (definition, action)
+            r, w = os.pipe()
+            pid = os.fork()
+            if pid == 0:
+                try:
+                    os.close(r)
+                    d = getattr(ld.module, name)
+                    os.write(w, json.dumps(outcome_of(ctx, d, op)).encode())
+                finally:
+                    os._exit(0)
+            os.close(w)
+            data = b""
+            while True:
+                chunk = os.read(r, 65536)
+                if not chunk:
+                    break
+                data += chunk
+            os.close(r)
+            os.waitpid(pid, 0)
+            _BASE[name][op] = json.loads(data.decode()) if data else ["child-died", ""]
     return _BASE
 
 
@@ -359,9 +395,24 @@ def run_case(ctx, rng, idx, params, tier):
                     pass
                 continue
         if op == "check":
-            outcome_of(ctx, d, "check")
+            got = outcome_of(ctx, d, "check")
             counters["checks_run"] += 1
             hist.append(("check", name))
+            exp = tuple(base[name]["check"])
+            # a repeated check right after a failed one is the shortest history in which a stale
+            # `checked` entry can show: do it half of the time
+            again = None
+            if rng.random() < 0.5:
+                again = outcome_of(ctx, d, "check")
+                hist.append(("check", name))
+                counters["checks_run"] += 1
+            for g in (got, again):
+                if g is not None and tuple(g) != exp:
+                    viols.append({"mech": f"C11:history-dependent-check-{exp[0]}-became-{g[0]}",
+                                  "witness": {"definition": name, "history": hist[:], "baseline": list(exp)[:2],
+                                              "observed": list(g)[:2]}})
+                    break
+            counters["checks_compared"] = counters.get("checks_compared", 0) + 1
             continue
         inject = rng.random() < 0.2
         if inject:
